@@ -889,7 +889,10 @@ func inputsUntouched(c *eng.Ctx, r *eng.Report, rule string, fns []roEnt) {
 		for _, s := range []string{"G1).ScalarMult", "G1).Add", "G1).Neg", "G1).Set", "G1).ScalarBaseMult", "G1).Unmarshal", "G1).HashToPoint",
 			"G2).ScalarMult", "G2).Add", "G2).Neg", "G2).Set", "G2).ScalarBaseMult", "G2).Unmarshal",
 			"Signature).mul", "Signature).add", "Signature).Deserialize", "Signature).unmarshalExact", "Signature).SetHexString",
-			"Pubkey).add", "Pubkey).Deserialize", "Pubkey).SetHexString"} {
+			"Pubkey).add", "Pubkey).Deserialize", "Pubkey).SetHexString",
+			"twistPoint).MakeAffine", "curvePoint).MakeAffine", "twistPoint).Set", "curvePoint).Set", "twistPoint).Neg", "curvePoint).Neg",
+			"twistPoint).Double", "curvePoint).Double", "twistPoint).Add", "curvePoint).Add", "twistPoint).Mul", "curvePoint).Mul",
+			"twistPoint).SetInfinity", "curvePoint).SetInfinity"} {
 			if strings.HasSuffix(n, s) {
 				return true
 			}
